@@ -20,6 +20,7 @@ type guardFamily struct {
 	lock    []string // exact call names (suffix match) that lock the family's mutex
 	unlock  []string
 	helpers []string // functions that expect the mutex to be held by the caller (their calls are accesses)
+	sinks   []string // call names (suffix match) that count as accesses (gate family: issuing / loading calls)
 }
 
 var guardFamilies = []guardFamily{
@@ -36,6 +37,13 @@ var guardFamilies = []guardFamily{
 	{id: "ring", state: []string{"field:ring", "field:cursor"}, lock: []string{".mu.Lock"}, unlock: []string{".mu.Unlock"}, files: []string{"ratelimiter.go"},
 		helpers: []string{"advance"}},
 	{id: "locks", state: []string{"locks"}, lock: []string{"locksMu.Lock"}, unlock: []string{"locksMu.Unlock"}, files: []string{"storage.go"}},
+	// "gate domination" (C02) in the same framework: passing the on-demand policy gate
+	// (`if err := checkIfCertShouldBeObtained(..); err != nil { return }`, fused) is the "lock",
+	// the calls that issue, renew or load a certificate are the "accesses"; nothing "unlocks"
+	{id: "gate", state: []string{"acq:checkIfCertShouldBeObtained", "acqmark:GATE-PASSED"}, lock: []string{"GATE-PASSED"}, unlock: []string{"<never>"},
+		files: []string{"handshake.go"},
+		sinks: []string{".ObtainCertAsync", ".ObtainCertSync", ".RenewCertAsync", ".RenewCertSync", ".forceRenew", ".loadManagedCertificate",
+			".CacheManagedCertificate", ".reloadManagedCertificate"}},
 	{id: "ratelimiters", state: []string{"rateLimiters"}, lock: []string{"rateLimitersMu.Lock", "rateLimitersMu.RLock"}, unlock: []string{"rateLimitersMu.Unlock", "rateLimitersMu.RUnlock"}, files: []string{"acmeclient.go"}},
 }
 
@@ -77,6 +85,12 @@ func genGuard(p *pkgInfo, l *leanFile) {
 		for _, h := range fam.helpers {
 			helperSet[h] = true
 		}
+		famHasState := false
+		for _, st := range fam.state {
+			if !strings.HasPrefix(st, "acq:") && !strings.HasPrefix(st, "acqmark:") {
+				famHasState = true
+			}
+		}
 		simple := func(k string) string {
 			if i := strings.LastIndex(k, "."); i >= 0 {
 				return k[i+1:]
@@ -93,12 +107,12 @@ func genGuard(p *pkgInfo, l *leanFile) {
 					return `(.act "lock")`
 				case hasSuffixAny(name, fam.unlock):
 					return `(.act "unlock")`
-				case strings.HasPrefix(name, "mapread:") || strings.HasPrefix(name, "mapwrite:") || strings.HasPrefix(name, "mapdelete:") ||
-					strings.HasPrefix(name, "maprange:") || strings.HasPrefix(name, "field:"):
+				case famHasState && (strings.HasPrefix(name, "mapread:") || strings.HasPrefix(name, "mapwrite:") || strings.HasPrefix(name, "mapdelete:") ||
+					strings.HasPrefix(name, "maprange:") || strings.HasPrefix(name, "field:")):
 					touches = true
 					return `(.act "access")`
 				}
-				if helperSet[simple(name)] {
+				if helperSet[simple(name)] || hasSuffixAny(name, fam.sinks) {
 					touches = true
 					return `(.act "access")`
 				}
